@@ -32,6 +32,20 @@
    the guard "the wait accumulated in front of the stop is not larger than the
    cached one" to the break, and Model/Estimates.v models the fixed estimate.
 
+   Stop duration multipliers (per vehicle, Model/Engine.v scale_duration /
+   stop_duration_on): the temporal estimates simulate with the multiplier of
+   the move's vehicle (sim_all / sim_wait take the vehicle and call the same
+   temporal_values as the exact check), so no statement of this file changes.
+   The side conditions stop_durations_nonneg / dgroups_nonneg of the partial
+   statements speak about the UNSCALED input durations and stay sufficient:
+   wf_input says that every multiplier num/den has den > 0 and num >= 0, hence
+   scaled values of non-negative durations are non-negative
+   (Engine_inv.scale_duration_nonneg); the triangle inequality of the group
+   part survives the separate truncation because the same group duration is
+   scaled on both sides (Estimates_proofs.dgroup_extra_cases,
+   scaled_extra_triangle).  At the early break "equal arrival and equal end"
+   gives equal SCALED group parts (nc_extra_of_end), which is all that is used.
+
    Definitions used in the statements that are not part of the models (they
    are in NR.Proofs.Engine_inv / Engine_spec / Estimates_proofs):
 
